@@ -9,6 +9,7 @@ rk4
 implicit or backwardeuler
 trapezoidal or cranknicolson
 """
+import copy
 import math
 import sys
 import time
@@ -293,8 +294,9 @@ class timemodel(_coreiterative):
             # specific steps to save all results reached by this time step and go back to Qn
             while (isave < nsave) and (self.Qn.time+mindtloc >= tsave[isave]):
                 # compute smaller step with same integrator (if not already reached by Qn)
+                # a copy of the integrator is used to keep unchanged its data from previous steps (gear)
                 if tsave[isave] > self.Qn.time:
-                    self.step(Qnn, tsave[isave]-self.Qn.time)
+                    copy.copy(self).step(Qnn, tsave[isave]-self.Qn.time)
                 Qnn.it = self._itstart + self._nit
                 results.append(Qnn)
                 if verbose:
